@@ -56,15 +56,28 @@ def scenario(ctx, i):
     cur = None
     if i % 2:
         cur = dict(w=r.dirichlet(np.full(C, 3.0)), m=m + 0.3 * r.normal(size=m.shape) * np.sqrt(v), v=v * r.uniform(0.5, 2, v.shape))
-    return dict(C=C, D=D, w=w, m=m, v=v, x=x, um=um, uv=uv, uw=uw, reynolds=reyn, r=rel, alpha=alpha, thr=thr, st=st, cur=cur, floor=gen.EPS)
+    return dict(C=C, D=D, w=w, m=m, v=v, x=x, um=um, uv=uv, uw=uw, reynolds=reyn, r=rel, alpha=alpha, thr=thr, st=st, cur=cur, floor=gen.EPS,
+                late=[None, None, "set_params", "setattr"][int(r.integers(0, 4))])
 
 
 def mk_map(sc, **kw):
     from bob.learn.em import GMMMachine
 
     ubm = gen.mk_gmm(sc["w"], sc["m"], sc["v"], thr=sc["floor"])
-    g = GMMMachine(sc["C"], trainer="map", ubm=ubm, update_means=sc["um"], update_variances=sc["uv"], update_weights=sc["uw"],
-                   map_relevance_factor=sc["r"] if sc["reynolds"] else None, map_alpha=sc["alpha"], mean_var_update_threshold=sc["thr"], **kw)
+    opts = dict(update_means=sc["um"], update_variances=sc["uv"], update_weights=sc["uw"],
+                map_relevance_factor=sc["r"] if sc["reynolds"] else None, map_alpha=sc["alpha"])
+    if sc.get("late"):
+        # configured after construction (set_params / attribute assignment): what counts is the configuration at fit time
+        other = dict(update_means=not sc["um"], update_variances=not sc["uv"], update_weights=not sc["uw"],
+                     map_relevance_factor=None if sc["reynolds"] else 3.0 * sc["r"] + 1.0, map_alpha=1.0 - 0.5 * sc["alpha"])
+        g = GMMMachine(sc["C"], trainer="map", ubm=ubm, mean_var_update_threshold=sc["thr"], **other, **kw)
+        if sc["late"] == "set_params":
+            g.set_params(**opts)
+        else:
+            for k_, v_ in opts.items():
+                setattr(g, k_, v_)
+    else:
+        g = GMMMachine(sc["C"], trainer="map", ubm=ubm, mean_var_update_threshold=sc["thr"], **opts, **kw)
     if sc.get("cur") is not None:
         g.weights = np.array(sc["cur"]["w"], dtype=float)
         g.means = np.array(sc["cur"]["m"], dtype=float)
@@ -117,7 +130,7 @@ def correspondence(ctx):
         ctx.count("starved-component" if starved else "all-components-have-evidence")
         ctx.case([core.tolist(sc["m"]), core.tolist(st.n), sw, sc["r"], sc["alpha"], sc["reynolds"]], nontrivial=sc["C"] >= 2 and (sc["um"] or sc["uv"] or sc["uw"]),
                  sample={"C": sc["C"], "D": sc["D"], "switches": sw, "relevance": sc["r"] if sc["reynolds"] else None, "alpha": sc["alpha"], "n": st.n})
-        inp = {**{k: sc[k] for k in ("w", "m", "v", "um", "uv", "uw", "reynolds", "r", "alpha", "thr", "cur")}, "stats": gen.stats_impl(st)}
+        inp = {**{k: sc[k] for k in ("w", "m", "v", "um", "uv", "uw", "reynolds", "r", "alpha", "thr", "cur", "late")}, "stats": gen.stats_impl(st)}
         if isinstance(res, core.ImplError):
             bad.append({"op": "gmm_mstep_map:means", "input": inp, "impl": repr(res)})
             continue
@@ -272,7 +285,7 @@ def search(ctx):
         f = oracle_penalised(sc)
         if f and f["sig"] not in seen:
             seen.add(f["sig"])
-            f["input"] = {k: sc[k] for k in ("C", "D", "w", "m", "v", "x", "um", "uv", "uw", "reynolds", "r", "alpha", "thr", "st", "cur", "floor")}
+            f["input"] = {k: sc[k] for k in ("C", "D", "w", "m", "v", "x", "um", "uv", "uw", "reynolds", "r", "alpha", "thr", "st", "cur", "floor", "late")}
             f["oracle"] = "penalised"
             fails.append(f)
     for i in range(ctx.budget(64, 640)):
@@ -282,7 +295,7 @@ def search(ctx):
         f = oracle(sc) or (oracle_limits(sc) if i % 4 == 0 else None)
         if f and f["sig"] not in seen:
             seen.add(f["sig"])
-            f["input"] = {k: sc[k] for k in ("C", "D", "w", "m", "v", "x", "um", "uv", "uw", "reynolds", "r", "alpha", "thr", "st", "cur", "floor")}
+            f["input"] = {k: sc[k] for k in ("C", "D", "w", "m", "v", "x", "um", "uv", "uw", "reynolds", "r", "alpha", "thr", "st", "cur", "floor", "late")}
             f["oracle"] = "limits" if f["sig"].startswith("map-limit") else "blend"
             fails.append(f)
     return fails
